@@ -219,3 +219,67 @@ Definition const_header (h : header) : bool :=
   | [] => true
   | _ => false
   end.
+
+(* ---- loop trees: oklForStatement::getOklLoopIndex on kernels whose loops have siblings ---- *)
+(* an OKL loop (true = @outer, false = @inner) with the OKL loops directly nested in it *)
+Inductive ltree : Type := LNode (outer : bool) (children : list ltree).
+
+(* the largest number of loops of kind k on a path that starts at t (t included) *)
+Fixpoint same_below (k : bool) (t : ltree) : nat :=
+  match t with
+  | LNode k' cs =>
+      ((if Bool.eqb k k' then 1 else 0) +
+       (fix go (l : list ltree) : nat :=
+          match l with [] => O | c :: r => Nat.max (same_below k c) (go r) end) cs)%nat
+  end.
+
+Definition max_below (k : bool) (cs : list ltree) : nat :=
+  fold_right (fun c m => Nat.max (same_below k c) m) O cs.
+
+(* getOklLoopIndex: the maximum, over the paths below the loop, of the number of loops of its own kind *)
+Definition loop_index (t : ltree) : nat :=
+  match t with LNode k cs => max_below k cs end.
+
+(* every path from t to a leaf holds exactly n loops of kind k (what kernelHasValidOklLoops demands
+   below one outer-most @outer loop) *)
+Fixpoint uniform (k : bool) (n : nat) (t : ltree) : Prop :=
+  match t with
+  | LNode k' cs =>
+      let own := if Bool.eqb k k' then 1%nat else O in
+      match cs with
+      | [] => n = own
+      | _ => exists m, n = (own + m)%nat /\
+                       (fix all (l : list ltree) : Prop :=
+                          match l with [] => True | c :: r => uniform k m c /\ all r end) cs
+      end
+  end.
+
+(* a chain of loops (kinds listed outermost first) whose last [length ks - p] loops are duplicated as
+   two sibling chains below loop p-1 (p = 0 or p >= length: no fork) *)
+Fixpoint chain (ks : list bool) : list ltree :=
+  match ks with
+  | [] => []
+  | k :: r => [LNode k (chain r)]
+  end.
+
+Fixpoint forked (ks : list bool) (p : nat) : list ltree :=
+  match ks, p with
+  | [], _ => []
+  | k :: r, S O => match r with
+                   | [] => [LNode k []]
+                   | _ => [LNode k (chain r ++ chain r)]
+                   end
+  | k :: r, S q => [LNode k (forked r q)]
+  | _, O => chain ks
+  end.
+
+(* index of the d-th loop (from outside) on the left-most path *)
+Fixpoint index_at (ts : list ltree) (d : nat) : nat :=
+  match ts with
+  | [] => O
+  | t :: _ =>
+      match d with
+      | O => loop_index t
+      | S d' => match t with LNode _ cs => index_at cs d' end
+      end
+  end.
